@@ -179,10 +179,20 @@ def correspondence(chk, rng, n, pool, tag='job'):
         parts = d.split()
         mstatus = int(parts[0]); mfs = dict(x.split(':', 1) for x in parts[1].split(',')) if parts[1] != '-' else {}
         mstdout = unhx(parts[2])
-        impl = {'status': 0 if rc == 0 else 1, 'fs': {(_hp(q)): _enc_state(s).replace('P', 'A', 1) if s[0] in 'AP' else _enc_state(s) for q, s in snap.items()}}
-        model = {'status': mstatus, 'fs': {q: ('A' if s in ('A', 'P') else s) for q, s in mfs.items() if q != '=' and q != '-'}}
+        # modes: a file that was there before must keep its mode; for a file the run creates the properties fix nothing for the output file
+        # and "owner-only" for the key file - compared as such, not as one particular number
+        created = {_hp(q) for q in snap if q not in sc['files']}
+        def norm(qh, st):
+            if st in ('A', 'P'): return 'A'
+            if not st.startswith('F:') or qh not in created: return st
+            _, mode, content = st.split(':', 2)
+            if sc['keyfile'] and qh == _hp(sc['keyfile']) and sc['keyfile'] != sc['out']:
+                return 'F:%s:%s' % ('owner-only' if ((int(mode) & 0o077) == 0 and (int(mode) & 0o400)) else mode, content)
+            return 'F:*:' + content
+        impl = {'status': 0 if rc == 0 else 1, 'fs': {_hp(q): norm(_hp(q), _enc_state(s)) for q, s in snap.items()}}
+        model = {'status': mstatus, 'fs': {q: norm(q, s) for q, s in mfs.items() if q != '=' and q != '-'}}
         if not sc['out']: impl['stdout'] = so; model['stdout'] = mstdout
-        if rc not in (0, 1):
+        if streamlib.crashed(rc, se):
             chk.violate('the command ended with an exit status other than 0 or 1 (a crash)', dict(case), tags=['job', 'crash'])
         if impl != model:
             diff = {k: (str(impl.get(k))[:400], str(model.get(k))[:400]) for k in set(impl) | set(model) if impl.get(k) != model.get(k)}
